@@ -7,9 +7,9 @@ Import ListNotations.
 Local Open Scope string_scope.
 
 Lemma sweep_premises_example :
-  exists t, In t (spines 2) /\ tts t = L "Vec<HashMap<String, i32>>" /\ kf_C05 SParam MZod [] t = false.
+  exists t, In t (spines 1) /\ tts t = L "HashMap<String, f64>" /\ kf_C05 SParam MZod [] t = false.
 Proof.
-  assert (H : existsb (fun x => str_eqb (tts x) (L "Vec<HashMap<String, i32>>") && negb (kf_C05 SParam MZod [] x)) (spines 2) = true)
+  assert (H : existsb (fun x => str_eqb (tts x) (L "HashMap<String, f64>") && negb (kf_C05 SParam MZod [] x)) (spines 1) = true)
     by (vm_compute; reflexivity).
   apply existsb_exists in H. destruct H as (x & Hin & Hp). apply andb_true_iff in Hp as [Hn Hk].
   exists x. split; [exact Hin|]. split; [apply str_eqb_eq; exact Hn | apply negb_true_iff; exact Hk].
